@@ -27,7 +27,7 @@ CONTRACTS = ('eq',)   # ambient icontract contracts active in every shard of thi
 
 def plan(tier, seed):
     return [{"shard": i, "nshards": NSHARDS, "nmax": 5 if tier == "quick" else 6,
-             "n_random": 200 if tier == "quick" else 8000} for i in range(NSHARDS)]
+             "n_random": 200 if tier == "quick" else 20000} for i in range(NSHARDS)]
 
 
 def permuted(spec, r, what):
